@@ -103,11 +103,105 @@ def walk_ford(project):
     return out
 
 
+FORCED_PROJECTS = [
+    # generic interfaces (named, operator, assignment) with several explicit interface bodies, a non-generic
+    # interface block with two bodies, an abstract interface: every body is an item of its interface's page
+    {"src/ifc.f90": """module shapes
+  implicit none
+  interface area
+    !! generic with explicit bodies
+    function area_circle(r)
+      !! body one
+      real, intent(in) :: r
+      real :: area_circle
+    end function area_circle
+    function area_rectangle(a, b)
+      !! body two
+      real, intent(in) :: a, b
+      real :: area_rectangle
+    end function area_rectangle
+    subroutine area_report(n)
+      !! body three
+      integer, intent(in) :: n
+    end subroutine area_report
+  end interface area
+  interface operator(.cross.)
+    !! operator with explicit bodies
+    function cross_r(a, b)
+      real, intent(in) :: a, b
+      real :: cross_r
+    end function cross_r
+    function cross_i(a, b)
+      integer, intent(in) :: a, b
+      integer :: cross_i
+    end function cross_i
+  end interface
+  interface assignment(=)
+    subroutine assign_ri(a, b)
+      real, intent(out) :: a
+      integer, intent(in) :: b
+    end subroutine assign_ri
+    subroutine assign_ir(a, b)
+      integer, intent(out) :: a
+      real, intent(in) :: b
+    end subroutine assign_ir
+  end interface
+  interface
+    !! non-generic block
+    function ext_one(x)
+      real, intent(in) :: x
+      real :: ext_one
+    end function ext_one
+    subroutine ext_two(x)
+      real, intent(in) :: x
+    end subroutine ext_two
+  end interface
+  abstract interface
+    function cb(x)
+      real, intent(in) :: x
+      real :: cb
+    end function cb
+  end interface
+end module shapes
+""",
+     "src/ext.f90": """function area_circle(r)
+  real, intent(in) :: r
+  real :: area_circle
+  area_circle = 3.0 * r * r
+end function area_circle
+function ext_one(x)
+  real, intent(in) :: x
+  real :: ext_one
+  ext_one = x
+end function ext_one
+"""},
+]
+
+ID_RE = re.compile(r'''\sid\s*=\s*["']([^"']+)["']''')
+ANCHOR_KINDS = ("proc-", "variable-", "type-", "interface-", "boundprocedure-", "boundproc-", "final-", "finalproc-",
+                "common-", "namelist-", "enum-", "module-", "program-", "submodule-", "blockdata-", "genericsource-",
+                "sourcefile-", "subroutine-", "function-", "modproc-")
+
+
+def duplicate_ids(doc):
+    """per written page: entity anchors (id="<kind>-...") carried by more than one element"""
+    out = {}
+    for q in sorted(doc.rglob("*.html")):
+        ids = collections.Counter(ID_RE.findall(q.read_text(errors="replace")))
+        d = {i: c for i, c in ids.items() if c > 1 and i.lower().startswith(ANCHOR_KINDS)}
+        if d:
+            out[str(q.relative_to(doc))] = d
+    return out
+
+
 def end_to_end(chk, rng, nproj):
     import ford.sourceform as sf
-    for k in range(nproj):
-        proj = G.gen_project(rng, collision_knobs(rng))
-        files = G.render_project(proj)
+    for k in range(nproj + len(FORCED_PROJECTS)):
+        if k < len(FORCED_PROJECTS):
+            files = dict(FORCED_PROJECTS[k])
+        else:
+            proj = G.gen_project(rng, collision_knobs(rng))
+            files = G.render_project(proj)
         log, log5, items = [], [], {}
         orig = sf.NameSelector.get_name
 
@@ -117,12 +211,21 @@ def end_to_end(chk, rng, nproj):
             _log.append((id(item), str(item.get_dir()), item.name, r))
             log5.append((id(item), str(item.get_dir()), item.name, r, getattr(item, "obj", "")))
             return r
+        import ford.fortran_project as fp
+        captured = []
+        orig_init = fp.Project.__init__
+
+        def init_spy(self, *a, _o=orig_init, **kw):
+            captured.append(self)
+            return _o(self, *a, **kw)
         with F.Work(files) as w:
             sf.NameSelector.get_name = spy
+            fp.Project.__init__ = init_spy
             try:
                 data, out, err = F.full_run_inprocess(w.root, {"src_dir": ["./src"], "incl_src": "true"})
             finally:
                 sf.NameSelector.get_name = orig
+                fp.Project.__init__ = orig_init
             chk.count(("e2e", tuple(sorted(files))), sample={"files": sorted(files), "error": err})
             if err:
                 chk.violation("failing-input", {"what": "FORD failed on a valid generated project", "error": err,
@@ -204,6 +307,29 @@ def end_to_end(chk, rng, nproj):
             if odd:
                 chk.violation("broken-correspondence", {"what": "FortranBase.anchor is not <obj>-<quote(ident)>",
                                                         "anchors": odd[:10], "files": files}, False)
+            # (3c) the URLs FORD hands out for ALL entities of the project (not only those whose identifier was
+            #      requested directly): distinct entities never share a URL (page + fragment), except an entity
+            #      and the interface that stands for it
+            if captured:
+                byurl = collections.defaultdict(list)
+                for e in walk_ford(captured[-1]):
+                    if getattr(e, "obj", None) in (None, "sourcefile", "genericsource"):
+                        continue
+                    try:
+                        u = e.get_url()
+                    except Exception:  # noqa
+                        continue
+                    if u:
+                        byurl[str(u)].append(e)
+                clash = {}
+                for u, es in byurl.items():
+                    es = [e for e in es if not any(getattr(e, "parent", None) is o for o in es)]
+                    if len(es) > 1:
+                        clash[u] = [f"{getattr(e, 'obj', '?')} {e.name}" for e in es]
+                if clash:
+                    chk.violation("failing-input", {"what": "distinct entities are given the same URL (page and "
+                                                    "anchor)", "urls": dict(list(clash.items())[:6]),
+                                                    "files": files}, True)
             # (4) copied sources: out/src/<name> must hold the file that defines the entity
             byname = collections.defaultdict(list)
             for rel in files:
